@@ -34,9 +34,10 @@ func init() {
 			"Added after blind round 9: re-stated after the repair 9ebed55: Seek may delegate the restart search to a floor primitive — the search is classified there (floor, midpoint rounded up), and Seek reports success on the floor entry only behind an equality test with the target, never returning the floor's answer as its own; Reader.FindBlockForKey positions the index like sstable.Iterator.Seek (last entry <= key). " +
 			"Added after blind round 9: the key handed to the index block is the entry's FirstKey as stored (a shortened routing key breaks the reader's floor search); the loop that loads the per-block filters ends only with the filter section, never on a count (Reader.Get skips a block it has no filter for). " +
 			"Added after blind round 10: no function of the table reader branches on a comparison of a block locator's size with a constant. " +
-			"Added after blind round 10: Writer.Finish writes every collected block filter (Reader.Get skips a block it has no filter for).",
+			"Added after blind round 10: Writer.Finish writes every collected block filter (Reader.Get skips a block it has no filter for). " +
+			"Added after blind round 11: every 'found' exit of Reader.SearchBlockForKey lies behind an equality test of the iterator's key with the key sought; the load-what-it-indexed and marks-itself-positioned obligations of the table iterator.",
 		NotDecided: "DECLARED UNDECIDED: the exact landing position of Seek beyond the two structural conditions of (10) (e.g. what Seek answers at the end of a block), and 'every entry exactly once' beyond the cursor protocol of the two entry decoders (both must leave the cursor behind the entry they decode — decided since session 4; the tree's decodeCurrent did not, repaired by 8de228a). Also not decided: point-lookup completeness for all data sets, behaviour under arbitrary corruption.",
-		Rules:      []func(*Ctx, *Reporter){ruleFooterCodec, ruleIndexEntryCodec, ruleBlockEntryTrace, ruleBlockTrailer, ruleSstChecksums, ruleBloomKey, ruleBloomSiblings, ruleBuilderStrictOrder, ruleIndexFirstKey, ruleNoNarrowArithmetic, ruleEmptyNotDeleted, ruleTombstoneMarker, ruleSstReentrancy, ruleRetainedBuffersAreFresh, ruleReaderLimitsCoverFormat, ruleBlockSeekInterval, ruleIndexSeekAgreement, ruleTempFilePerTable, ruleBlockChecksumCoverage, ruleIteratorsOwnCursors, ruleBuilderCopiesValues, ruleDeltaBaseIsPredecessor, ruleNoCapOnBlockSize, ruleTableIteratorRewindsIndex, ruleTableSeekAlwaysAsksIndex, ruleIndexKeyVerbatim, ruleEveryFilterLoaded, ruleNoCapOnLocatorSize, ruleWriterWritesEveryFilter},
+		Rules:      []func(*Ctx, *Reporter){ruleFooterCodec, ruleIndexEntryCodec, ruleBlockEntryTrace, ruleBlockTrailer, ruleSstChecksums, ruleBloomKey, ruleBloomSiblings, ruleBuilderStrictOrder, ruleIndexFirstKey, ruleNoNarrowArithmetic, ruleEmptyNotDeleted, ruleTombstoneMarker, ruleSstReentrancy, ruleRetainedBuffersAreFresh, ruleReaderLimitsCoverFormat, ruleBlockSeekInterval, ruleIndexSeekAgreement, ruleTempFilePerTable, ruleBlockChecksumCoverage, ruleIteratorsOwnCursors, ruleBuilderCopiesValues, ruleDeltaBaseIsPredecessor, ruleNoCapOnBlockSize, ruleTableIteratorRewindsIndex, ruleTableSeekAlwaysAsksIndex, ruleIndexKeyVerbatim, ruleEveryFilterLoaded, ruleNoCapOnLocatorSize, ruleWriterWritesEveryFilter, ruleBlockLookupComparesTheKey, ruleTableIteratorLoadsWhatItIndexed, ruleTableIteratorMarksItselfPositioned},
 	})
 }
 
